@@ -94,7 +94,7 @@ def load(stubs):
     M.np = models.NpProxy(dict(zeros=models.zeros_model))
     HE = importlib.import_module('src.hierarchical_error_estimator')
     HH = importlib.import_module('src.h_h2_error_estimator')
-    HE.float = lambda v: abs(v.x) if isinstance(v, AbsSq) else models.float_model(v)
+    HE.float = models.float_model
     HE.abs = abs_model
     HE.np = models.NpProxy(dict(zeros=models.zeros_model, array=models.array_model))
     HE.print = models.noprint
